@@ -77,13 +77,38 @@ def alloc_wrappers(u):
     return out
 
 
-def _fresh_write_ok(node, base, size):
+def _is_min_function(h):
+    """static T f(a, b) { return (a < b) ? a : b; } in any of its spellings"""
+    if h is None or h.body is None or len(h.params) != 2:
+        return False
+    rets = [x for x in h.nodes() if x.get('k') == 'return' and 'e' in x]
+    stmts = [x for x in h.nodes() if x.get('k') in ('if', 'while', 'for', 'do', 'switch')]
+    if len(rets) != 1 or stmts or any(x.get('k') == 'call' for x in h.nodes()):
+        return False
+    r = strip_casts(rets[0]['e'])
+    if r.get('k') != 'cond':
+        return False
+    c = strip_casts(r['c'])
+    pd = [p['d'] for p in h.params]
+    if c.get('k') != 'bin' or c['op'] not in ('<', '<=', '>', '>='):
+        return False
+    l, rr, t, e = (strip_casts(x) for x in (c['l'], c['r'], r['t'], r['e']))
+    if not all(x.get('k') == 'ref' and x.get('d') in pd for x in (l, rr, t, e)) or l['d'] == rr['d'] or t['d'] == e['d']:
+        return False
+    small = t if c['op'] in ('<', '<=') else e
+    return small['d'] == l['d']
+
+
+def _fresh_write_ok(node, base, size, u=None):
     """A write into a block of `size` bytes allocated in this function stays inside it."""
     S = _linstr(size)
     if node.get('k') == 'call':
         cn = callee_name(node)
         if cn == 'memcpy' and len(node['args']) == 3:
             nexp = strip_casts(node['args'][2])
+            if nexp.get('k') == 'call' and u is not None and _is_min_function(u.functions.get(callee_name(nexp))) and len(nexp['args']) == 2:
+                if S in (_linstr(nexp['args'][0]), _linstr(nexp['args'][1])):
+                    return True, 'copies %s(.., %s) bytes' % (callee_name(nexp), expr_str(size))
             if nexp.get('k') == 'cond':
                 c = strip_casts(nexp['c'])
                 arms = [_linstr(nexp['t']), _linstr(nexp['e'])]
@@ -262,7 +287,7 @@ def out1(units, R):
                         continue
                     n += 1
                     if b['d'] in fresh:
-                        okf, whyf = _fresh_write_ok(node, b, fresh[b['d']])
+                        okf, whyf = _fresh_write_ok(node, b, fresh[b['d']], u)
                         szp = fresh[b['d']]
                         if not okf and szp.get('k') == 'ref' and szp.get('dk') == 'param' and fn.name in alloc_wrappers(u) and \
                                 node.get('k') == 'call' and callee_name(node) == 'memcpy':
@@ -870,6 +895,12 @@ def tab15(units, R):
                             ok = v in WHITESPACE
                             R.ob('TAB15', fn, ev.node, 'store controlled by format writes whitespace only', ok,
                                  'writes %r' % (chr(v) if v is not None else expr_str(ev.node['r'])[:30]),
+                                 key='fmtstore:%s' % expr_str(ev.node)[:40])
+                        elif ev.kind == 'call' and callee_name(ev.node) == 'memset' and len(ev.node['args']) == 3:
+                            n += 1
+                            v = const_val(ev.node['args'][1])
+                            R.ob('TAB15', fn, ev.node, 'store controlled by format writes whitespace only', v in WHITESPACE,
+                                 'fills with %r' % (chr(v) if v is not None else expr_str(ev.node['args'][1])[:30]),
                                  key='fmtstore:%s' % expr_str(ev.node)[:40])
                         elif ev.kind == 'call' and callee_name(ev.node) not in ('ensure', None) and callee_name(ev.node) in u.functions:
                             n += 1
